@@ -599,6 +599,7 @@ type Exec struct {
 	callSites map[string]map[token.Pos]int
 	nameCount map[string]int
 	nowVals  []*Val
+	insertOnlyN int
 	tickerRefs []string // tickers created so far by the function under verification
 	lockCheck bool
 	ownsCheckOn bool
